@@ -203,3 +203,32 @@ where
     }
     Ok(())
 }
+
+/// process_vm_readv(2) contract stub that feeds the same ghost log as `stub_copy_from_process`:
+/// used next to it so that a writer which reads target memory through `MemReader` directly
+/// (bypassing `copy_from_process`) is observed as well.  Always transfers the whole request.
+pub fn stub_process_vm_readv_log(
+    pid: nix::unistd::Pid,
+    local: &mut [std::io::IoSliceMut<'_>],
+    remote: &[nix::sys::uio::RemoteIoVec],
+) -> nix::Result<usize> {
+    unsafe {
+        let n = COPY_N;
+        assert!(n < MAX_CALLS, "ghost log too small");
+        let len = remote[0].len;
+        COPY_PID[n] = pid.as_raw();
+        COPY_SRC[n] = remote[0].base;
+        COPY_LEN[n] = len;
+        COPY_N = n + 1;
+        if n == COPY_FAIL_AT {
+            COPY_SERVED[n] = 0;
+            return Err(nix::errno::Errno::EFAULT);
+        }
+        assert!(len <= SERVE_MAX, "harness bound: requests through the vectored read are at most SERVE_MAX bytes");
+        let data: [u8; SERVE_MAX] = kani::any();
+        COPY_DATA[n] = data;
+        COPY_SERVED[n] = len;
+        local[0][..len].copy_from_slice(&data[..len]);
+        Ok(len)
+    }
+}
